@@ -866,6 +866,9 @@ func genStall(r *vlib.R, tier string, emit func(string)) {
 	for mode := 0; mode <= 2; mode++ {
 		emit(fmt.Sprintf("conc failrace %d %d", mode, r.U64()>>1))
 	}
+	for i := 0; i < 5; i++ {
+		emit(fmt.Sprintf("conc failrace 1 %d", r.U64()>>1))
+	}
 	emit(fmt.Sprintf("conc expire neg 3000 %d", r.U64()>>1))
 	emit(fmt.Sprintf("conc expire pos 3000 %d", r.U64()>>1))
 	if tier == "thorough" {
